@@ -95,7 +95,8 @@ fn snapshot(coll: &HostCollection, specs: &[HostSpec]) -> X {
 }
 
 fn free_port() -> Option<u16> {
-    let l = std::net::TcpListener::bind((std::net::Ipv4Addr::LOCALHOST, 0)).ok()?;
+    // kvarn binds the unspecified address: look for a port that is free there
+    let l = std::net::TcpListener::bind((std::net::Ipv4Addr::UNSPECIFIED, 0)).ok()?;
     l.local_addr().ok().map(|a| a.port())
 }
 
@@ -168,7 +169,10 @@ fn hosts(x: &X) -> X {
                 None => continue,
             };
             let desc = PortDescriptor::unsecure(port, Arc::clone(&coll)).ipv4_only();
-            if let Some(s) = Server::start_once_with(Kind::Seq, Some(desc)).await {
+            // kvarn panics ("Failed to bind") when the port was taken since `free_port` looked (other harness processes
+            // run in parallel): that is trouble of the harness, not an outcome -- the attempt runs in a task of its own so
+            // that its panic is an `Err` here, and is repeated with another port
+            if let Ok(Some(s)) = tokio::spawn(async move { Server::start_once_with(Kind::Seq, Some(desc)).await }).await {
                 server = Some(s);
                 break;
             }
